@@ -13,7 +13,7 @@ from typing import Any, Callable, Optional
 
 import z3
 
-from .exec import Exec, Raised
+from .exec import Exec, Raised, guarded_check
 from .model import Model
 from .state import State, fresh_id
 from .values import Fn, ListObj, Obj, Ref, SetObj, SV, Tup, Unsupported
@@ -195,19 +195,19 @@ def discharge(ctx: Ctx, ob: Obligation, use_cvc5_always=False) -> dict:
             s2.add(a)
         for h in ob.hyps:
             s2.add(h)
-        r = s2.check()
+        r = guarded_check(s2, 1500)
         rec["verdict"] = {"sat": "reachable", "unsat": "VACUOUS", "unknown": "reachable"}[str(r)]
         if str(r) == "unknown":
             rec["note"] = "no contradiction by E-matching (quantified axioms present)"
         rec["ms"] = int((time.time() - t0) * 1000)
         return rec
     s.add(z3.Not(ob.goal))
-    r = s.check()
+    r = guarded_check(s, ctx.timeout_ms)
     if r == z3.unknown:
         # one retry with a three times larger budget before the obligation counts as not re-established
         rec["reason_unknown"] = s.reason_unknown()
         s.set("timeout", ctx.timeout_ms * 3)
-        r = s.check()
+        r = guarded_check(s, ctx.timeout_ms * 3)
         if r == z3.unknown:
             rec["reason_unknown"] = s.reason_unknown()
     verdict = str(r)
@@ -325,7 +325,7 @@ def candidate_models(ctx: Ctx, ob: Obligation, n: int):
             for h in ob.hyps:
                 s.add(h)
             s.add(f == val, z3.Not(ob.goal))
-            if s.check() == z3.unsat:
+            if guarded_check(s, 1500) == z3.unsat:
                 learned.append(f != val)
     for c in learned:
         g.add(c)
@@ -335,7 +335,7 @@ def candidate_models(ctx: Ctx, ob: Obligation, n: int):
         g.push()
         g.add(h)
         k = 0
-        while k < 3 and g.check() == z3.sat:
+        while k < 3 and guarded_check(g, ctx.timeout_ms) == z3.sat:
             mdl = g.model()
             out.append(extract_model(ctx, mdl, ob.inputs))
             k += 1
@@ -343,7 +343,7 @@ def candidate_models(ctx: Ctx, ob: Obligation, n: int):
                 break
             g.add(z3.Or(*[f != mdl.eval(f, model_completion=True) for f in feats]))
         g.pop()
-    while len(out) < n and g.check() == z3.sat:
+    while len(out) < n and guarded_check(g, ctx.timeout_ms) == z3.sat:
         mdl = g.model()
         out.append(extract_model(ctx, mdl, ob.inputs))
         if not feats:
